@@ -17,6 +17,7 @@ package ipv6only
 
 import (
 	"errors"
+	"math"
 	"time"
 
 	"github.com/coredhcp/coredhcp/handler"
@@ -40,6 +41,11 @@ func setup4(args ...string) (handler.Handler4, error) {
 		dur, err := time.ParseDuration(args[0])
 		if err != nil {
 			log.Errorf("invalid duration: %v", args[0])
+			return nil, errors.New("ipv6only failed to initialize")
+		}
+		// the IPv6-Only Preferred option carries an unsigned 32-bit number of seconds
+		if dur < 0 || dur/time.Second > math.MaxUint32 {
+			log.Errorf("duration out of range: %v", args[0])
 			return nil, errors.New("ipv6only failed to initialize")
 		}
 		v6only_wait = dur
